@@ -1,0 +1,24 @@
+//go:build verif
+// +build verif
+
+package transport
+
+import "sync/atomic"
+
+// verification hook (build tag verif): called right after a message has been written to the connection,
+// before WriteMsg returns to its caller. It may yield, sleep or wait.
+var verifHook atomic.Value // of func(name string, arg int64)
+
+// SetVerifHook installs the handler; pass nil to remove it.
+func SetVerifHook(f func(name string, arg int64)) {
+	if f == nil {
+		f = func(string, int64) {}
+	}
+	verifHook.Store(f)
+}
+
+func verifPoint(name string, arg int64) {
+	if f, ok := verifHook.Load().(func(string, int64)); ok && f != nil {
+		f(name, arg)
+	}
+}
